@@ -11,16 +11,17 @@ import (
 type N = map[string]any
 
 type langGen struct {
-	r       *rand.Rand
-	vars    map[string]string // rough type of each variable: int flt str arr dict func comp any
-	funcs   map[string]int    // user functions and their arity
-	inFunc  int
-	inLoop  int
-	inHole  int
-	dice    bool
-	sides   int
-	noStmts bool
-	budget  int
+	r         *rand.Rand
+	vars      map[string]string // rough type of each variable: int flt str arr dict func comp any
+	funcs     map[string]int    // user functions and their arity
+	inFunc    int
+	inLoop    int
+	inHole    int
+	dice      bool
+	sides     int
+	noStmts   bool
+	budget    int
+	tmplFocus bool
 }
 
 var lgVars = []string{"x", "y", "z", "u", "w", "n1", "力量"}
@@ -144,6 +145,9 @@ func (g *langGen) expr(d int, want string) N {
 		}
 		return g.leaf("flt")
 	case "str":
+		if g.tmplFocus && g.r.Intn(10) < 6 {
+			return g.tmpl(d)
+		}
 		switch g.r.Intn(8) {
 		case 0, 1:
 			return g.pp(N{"k": "bin", "op": "+", "l": g.expr(d-1, "str"), "r": g.expr(d-1, "str")})
@@ -325,7 +329,15 @@ func (g *langGen) tmpl(d int) N {
 	parts := []N{}
 	for i := 0; i < n; i++ {
 		if g.r.Intn(2) == 0 {
-			parts = append(parts, N{"k": "lit", "c": chars(g.pick("a", "v=", "x", "；", "-", "1"))})
+			if g.tmplFocus {
+				cs := []string{}
+				for k := 1 + g.r.Intn(3); k > 0; k-- {
+					cs = append(cs, g.pick("a", "SP", "SQ", "DQ", "LB", "RB", "BSL", "LF", "CJK1", "PCT", "1", "n", "TAB", "EMOJI", "CR"))
+				}
+				parts = append(parts, N{"k": "lit", "c": cs})
+			} else {
+				parts = append(parts, N{"k": "lit", "c": chars(g.pick("a", "v=", "x", "；", "-", "1"))})
+			}
 		} else {
 			g.inHole++
 			var body []N
@@ -506,6 +518,7 @@ func init() {
 		depth := fs.Int("depth", 3, "max depth")
 		maxHist := fs.Int("hist", 3, "max programs per history")
 		exprOnly := fs.Bool("expr", false, "expression programs only")
+		tmpl := fs.Bool("tmpl", false, "template-heavy programs (C13)")
 		fs.Parse(args)
 		r := rand.New(rand.NewSource(envSeed()))
 		w := newNDWriter(*out)
@@ -515,6 +528,7 @@ func init() {
 			mode := []int{-1, 1, 0, 0}[r.Intn(4)]
 			g.dice = r.Intn(3) != 0
 			g.noStmts = *exprOnly || r.Intn(4) == 0
+			g.tmplFocus = *tmpl
 			faces := []int{}
 			for k := 0; k < 48; k++ {
 				faces = append(faces, 1+r.Intn(g.sides))
@@ -525,6 +539,16 @@ func init() {
 				progs = append(progs, g.program(1+r.Intn(*depth)))
 			}
 			w.Write(N{"id": i + 1, "cfg": N{"div0": r.Intn(4) == 0, "mode": mode, "fuel": 40, "loopmax": 12}, "faces": faces, "progs": progs})
+		}
+		if *tmpl {
+			// nesting depth around the limit: accepted-and-correct or rejected, never wrong
+			for depth := 1; depth <= 23; depth++ {
+				var e N = N{"k": "int", "v": 1, "pp": false}
+				for k := 0; k < depth; k++ {
+					e = N{"k": "tmpl", "q": 3 + k%2, "pp": false, "parts": []N{{"k": "lit", "c": []string{"a"}}, {"k": "hole", "pct": k%3 == 0, "body": []N{{"k": "expr", "e": e}}}}}
+				}
+				w.Write(N{"id": 900000 + depth, "cfg": N{"div0": false, "mode": -1, "fuel": 40, "loopmax": 12}, "faces": []int{}, "progs": [][]N{{{"k": "expr", "e": e}}}})
+			}
 		}
 		emitSummary(N{"histories": w.n})
 		return 0
